@@ -329,7 +329,11 @@ class Interp(object):
         args = []
         for a in node.args:
             if isinstance(a, ast.Starred):
-                args.extend(self.iter_concrete(self.eval(a.value, env)))
+                sv = self.eval(a.value, env)
+                if isinstance(sv, Seq) and not z3.is_int_value(z3.simplify(sv.len)):
+                    args.append(bi.StarSeq(sv))      # *args of symbolic length
+                else:
+                    args.extend(self.iter_concrete(sv))
             else:
                 args.append(self.eval(a, env))
         kwargs = {}
@@ -431,6 +435,9 @@ class Interp(object):
         if bi.is_exception_class(cls):
             return ExcValue(cls.name, args)
         inst = Instance(cls)
+        if bi.derives_from_tuple(cls):
+            # tuple subclass (petl.util.base.Record): tuple.__new__(cls, row) fixes the contents
+            inst.attrs['_tuple'] = bi.to_seq(self, args[0], 'tuple', node) if args else ()
         f = cls.find('__init__')
         if f:
             self._call(BoundMethod(f[0], inst), args, kwargs, node)
@@ -454,7 +461,10 @@ class Interp(object):
             else:
                 raise PyExc('TypeError', 'missing argument %s' % nm)
         extra = args[len(names):]
-        if a.vararg:
+        if a.vararg and len(extra) == 1 and isinstance(extra[0], bi.StarSeq):
+            sq = extra[0].seq
+            local[a.vararg.arg] = Seq(sq.arr, sq.len, 'tuple', 'Fresh')
+        elif a.vararg:
             local[a.vararg.arg] = tuple(extra)
         elif extra:
             raise PyExc('TypeError', 'too many positional arguments')
@@ -570,10 +580,16 @@ class Interp(object):
             raise Unsupported('assignment target at %s' % self.where(target))
 
     def log_mutation(self, op, obj, node, attr=None):
+        """frame obligation (C03/C01): only objects created by this activation and not yet yielded may be mutated"""
         origin = getattr(obj, 'origin', None)
         if isinstance(obj, (SCell,)):
             origin = 'Source'
         self.mutations.append((op, origin, self.where(node), attr, obj))
+        if op == 'setattr':
+            return      # attribute stores are judged by the write-set analysis (C01), not here
+        ok = origin in ('Fresh', 'Ghost', None) and not isinstance(obj, SCell)
+        self.ctx.oblige('frame: %s at line %s touches only an object created here and not yet yielded (it is %s)'
+                        % (op, getattr(node, 'lineno', '?'), origin), z3.BoolVal(bool(ok)), self.where(node), 'frame')
 
     def s_AugAssign(self, node, env):
         cur = self.eval(_load(node.target), env)
@@ -582,6 +598,10 @@ class Interp(object):
             self.log_mutation('iadd', cur, node)
             bi.list_extend(self, cur, rhs, node)
             return
+        if isinstance(node.op, ast.Add) and ((isinstance(cur, Seq) and cur.kind == 'src') or
+                                             (isinstance(cur, SCell) and isinstance(rhs, (Seq, tuple, PyList)))):
+            # a source row may be a list: += would extend it in place
+            self.log_mutation('iadd (in place if the row is a list)', cur, node)
         v = bi.binop(self, node.op, cur, rhs, node)
         self.assign(node.target, v, env)
 
@@ -683,8 +703,14 @@ class Interp(object):
                 return True
             # an opaque exception raised by a user callback / external call is of unknown class:
             # it is caught by `except Exception` only (callbacks are assumed not to raise BaseException)
-            if e.kind in ('UserError', 'ExternalError') and name == 'Exception':
-                return True
+            if e.kind in ('UserError', 'ExternalError'):
+                if name in ('Exception', 'BaseException'):
+                    return True
+                # the class of an exception raised by a callback is unknown: it may or may not be a <name>
+                tag = e.payload.t if isinstance(e.payload, SCell) else z3.Const('exc!%d' % id(e), V)
+                isa = z3.Function('exc_isinstance_%s' % name, V, B)
+                if self.ctx.branch(isa(tag), 'callback exception is a %s' % name):
+                    return True
         return False
 
     def s_With(self, node, env):
@@ -745,6 +771,8 @@ class Interp(object):
             raise Unsupported('loop contract on an iterator without a symbolic base at %s' % self.where(node))
         k0 = base.pos
         label = spec.label or ('loop@%s' % self.where(node))
+        if spec.delta is not None:
+            return self.stateless_for(node, env, it, spec, base, label)
         # 1. invariant holds on entry
         st = LoopState(self, env, SInt(k0))
         st.k0 = SInt(k0)
@@ -773,6 +801,41 @@ class Interp(object):
             raise PathEnd()
         else:
             base.exhausted_seen = True
+            self.exec_block(node.orelse, env)
+
+    def stateless_for(self, node, env, it, spec, base, label):
+        """stateless-body rule: one arbitrary iteration with everything the body assigns havocked"""
+        ctx = self.ctx
+        k0 = base.pos
+        k = smt.fresh_int('k')
+        pre_out = ctx.out
+        self.havoc(node, env, spec)
+        ctx.assume(z3.And(k0 <= k, k <= base.n))
+        base.pos = k
+        if ctx.branch(k < base.n, 'loop continues'):
+            dout = Seq(smt.fresh_arr('dout'), z3.IntVal(0), 'list', 'Ghost')
+            ctx.out = dout
+            ctx.in_iteration = (label, SInt(k))
+            x = bi.next_(self, it, node)
+            self.assign(node.target, x, env)
+            st = LoopState(self, env, SInt(k))
+            st.k0 = SInt(k0)
+            st.x = x
+            try:
+                self.exec_block(node.body, env)
+            except _Continue:
+                pass
+            except _Break:
+                raise Unsupported('break inside a loop verified by the stateless-body rule at %s' % self.where(node))
+            spec.delta(st, x, dout)
+            raise PathEnd()
+        else:
+            base.exhausted_seen = True
+            # after the loop the trace is  pre ++ concat_k delta(S[k])  (meta-theorem); post-loop yields go to a new
+            # segment so that the harness can state obligations on them separately
+            ctx.pre_loop_out = pre_out
+            ctx.out = Seq(smt.fresh_arr('post_out'), z3.IntVal(0), 'list', 'Ghost')
+            ctx.after_loop = label
             self.exec_block(node.orelse, env)
 
     def havoc(self, node, env, spec):
@@ -811,7 +874,7 @@ class Interp(object):
                 b = bi.base_iter(cur) if isinstance(cur, (SrcIter, MapIter)) else None
                 if b is not None and nm not in assigned and spec.types.get(nm) != 'keep':
                     pass     # positions of other iterators advanced in the body: declared through extra_havoc
-        if self.ctx.out is not None and any(isinstance(n, (ast.Yield, ast.YieldFrom)) for n in ast.walk(node)):
+        if spec.delta is None and self.ctx.out is not None and any(isinstance(n, (ast.Yield, ast.YieldFrom)) for n in ast.walk(node)):
             self.havoc_in_place(self.ctx.out, 'out')
 
     def set_var(self, env, nm, v):
@@ -847,7 +910,8 @@ class Interp(object):
         elif isinstance(cur, bi.SDict):
             cur.havoc(self, nm)
         elif isinstance(cur, PyList):
-            raise Unsupported('concrete list %s mutated in a contracted loop: convert with list(...) of a symbolic value' % nm)
+            cur.go_symbolic()
+            self.havoc_in_place(cur, nm)
         else:
             raise Unsupported('cannot havoc object %s = %r' % (nm, cur))
 
